@@ -8,3 +8,34 @@ package generic
 // the embedded builder works on the same world.
 //@ func Exchange.NewEntity(m, target) (e)
 //@   requires m.hasRelation ==> m.builder.world == m.world
+
+// ---- C20: generic resource access ----------------------------------------------------------------
+// typedSlot: what is stored under the ID of resource type T is nil or a *T (established by Add, the only
+// writer through this API; resource IDs are per type).
+//@ func Resource[T].Get(g) (r)
+//@   props C20
+//@   requires g.world != nil && resInv(&g.world.resources) && validID(g.id.id)
+//@   requires g.world.resources.resources[int(g.id.id)] != nil ==> is(g.world.resources.resources[int(g.id.id)], *T)
+//@   ensures g.world.resources.resources[int(g.id.id)] == nil ==> r == nil
+//@   ensures g.world.resources.resources[int(g.id.id)] != nil ==> ref(r) == g.world.resources.resources[int(g.id.id)].val
+
+//@ func Resource[T].Has(g) (b)
+//@   props C20
+//@   requires g.world != nil && resInv(&g.world.resources) && validID(g.id.id)
+//@   ensures b == (g.world.resources.resources[int(g.id.id)] != nil)
+
+//@ func Resource[T].Add(g, res)
+//@   props C20
+//@   requires g.world != nil && resInv(&g.world.resources) && validID(g.id.id)
+//@   panics_if g.world.resources.resources[int(g.id.id)] != nil
+//@   flag panic_clean
+//@   ensures is(g.world.resources.resources[int(g.id.id)], *T) && g.world.resources.resources[int(g.id.id)].val == ref(res)
+//@   modifies g.world.resources.resources[int(g.id.id)]
+
+//@ func Resource[T].Remove(g)
+//@   props C20
+//@   requires g.world != nil && resInv(&g.world.resources) && validID(g.id.id)
+//@   panics_if g.world.resources.resources[int(g.id.id)] == nil
+//@   flag panic_clean
+//@   ensures g.world.resources.resources[int(g.id.id)] == nil
+//@   modifies g.world.resources.resources[int(g.id.id)]
